@@ -506,6 +506,7 @@ def p16(v, case, obs):
         return []
     reqs = []            # (key, arrival index)
     keys = set()
+    ids_seen = set()
     for n, op in enumerate(ops):
         if op[0] != 1:
             continue
@@ -519,9 +520,12 @@ def p16(v, case, obs):
         if key is None:
             continue
         if key[0] != 0xD0:
-            if key in keys:
+            # every packet id is used by one request only (whatever its type): with a reused id the answer to one
+            # request can look like the answer to the other (0x91 refusals, PUBACK for a QoS 2 PUBLISH ..)
+            if key in keys or key[1] in ids_seen:
                 return []
             keys.add(key)
+            ids_seen.add(key[1])
         reqs.append((key, n))
     pending = list(reqs)
     last = -1
@@ -534,7 +538,8 @@ def p16(v, case, obs):
             if t not in (0x40, 0x50, 0x70, 0x90, 0xB0, 0xD0) or r == 0x91:
                 continue
             key = (t, pid if t != 0xD0 else 0)
-            k = next((j for j, (kk, _) in enumerate(pending) if kk == key), None)
+            # (only requests that have been sent by now: a response cannot answer a later request)
+            k = next((j for j, (kk, at) in enumerate(pending) if kk == key and at <= n), None)
             if k is None:
                 continue
             idx = pending[k][1]
@@ -557,7 +562,9 @@ class InbPart(Part):
 
     def py_oracle(self, case, obs):
         if obs == "9999":
-            return "0,panic" if "C16" in self.want else "1"
+            # a panic of the connection task: C16 by its statement; C03 / C04 because the acknowledgements and
+            # responses owed at that moment are never written
+            return "0,panic" if any(w in self.want for w in ("C16", "C03", "C04")) else "1"
         if self.engine in ("inb3b", "inb5b"):
             # burst engines: the scans that do not depend on which operation a packet was handled in
             c2 = unheld(case)
@@ -594,6 +601,8 @@ class InbPart(Part):
             bad = bad + p17(self.ver, case, obs)
         if "C04" in self.want and self.engine.startswith("inb"):
             bad = bad + p16(self.ver, case, obs) + p18(self.ver, case, obs)
+        elif "C04" in self.want and self.engine.startswith("cli"):
+            bad = bad + p16(self.ver, case, obs)      # the client role answers the broker's requests in order too
         elif "C03" in self.want and self.engine.startswith("inb"):
             bad = bad + p18(self.ver, case, obs)
         if "C12" in self.want and self.engine == "inb3":
